@@ -11,6 +11,7 @@ from __future__ import annotations
 import asyncio
 import json
 import os
+import re
 import stat
 import random
 import shutil
@@ -27,6 +28,74 @@ COQ_DEFS = """
 Definition m_trace (c : list (string * N) * list (string * N) * bool * list op) : bool :=
   match c with (ro, rn, has_old, tr) => trace_accepts ro rn has_old tr end.
 """
+
+
+INODE_HEADER = "From AM.Model Require Import Base Inode."
+INODE_DEFS = """
+Definition m_inode_show (c : list string * list (string * nat) * nat * list iop * list (string * nat) * list string) :=
+  match c with (L, ns0, top, ops, expected, changed) => check_run L ns0 top ops expected changed end.
+Definition m_inode c : bool :=
+  match m_inode_show c with (true, None, true, true) => true | _ => false end.
+"""
+
+
+def itree(base):
+    """name -> (dev/inode, content hash) of every regular file and symlink below base"""
+    import hashlib
+    out = {}
+    for dp, dns, fns in os.walk(base, followlinks=False):
+        for n in fns + [d for d in dns if os.path.islink(os.path.join(dp, d))]:
+            p = os.path.join(dp, n)
+            try:
+                st = os.lstat(p)
+                if stat.S_ISLNK(st.st_mode):
+                    h = "l:" + os.readlink(p)
+                elif stat.S_ISREG(st.st_mode):
+                    with open(p, "rb") as fp:
+                        h = hashlib.sha1(fp.read()).hexdigest()[:16]
+                else:
+                    continue
+            except OSError:
+                continue
+            rel = os.path.relpath(p, base)
+            if "/" in rel:    # the configuration files the harness writes at the top are not the tool's
+                out[rel] = ((st.st_dev, st.st_ino), h)
+    return out
+
+
+IKINDS = {"open-w": "IOpenW", "truncate": "ITrunc", "remove": "IUnlink", "link": "ILink", "rename": "IRename",
+          "symlink": "ISym"}
+
+
+def inode_row(o_list, base, init, ievents, final):
+    """the recorded run as an Inode.check_run case: initial names and inodes, the operations, the names and
+    inode classes the real tree ends with, and the names whose initial inode really changed content"""
+    from .common import cstr
+    ids = {}
+    for _, (ino, _) in sorted(init.items()):
+        ids.setdefault(ino, len(ids))
+    ns0 = clist(ctuple(cstr(n), cnat(ids[ino])) for n, (ino, _) in sorted(init.items()))
+    ops = []
+    for kind, rel in ievents:
+        c = IKINDS.get(kind)
+        if c is None:
+            continue
+        if c in ("ILink", "IRename"):
+            ops.append(f"({c} {cstr(rel[0])} {cstr(rel[1])})")
+        elif c == "ISym":
+            ops.append(f"(ISym {cstr(rel[1])})")
+        else:
+            ops.append(f"({c} {cstr(rel[0])})")
+    fids = {}
+    for _, (ino, _) in sorted(final.items()):
+        fids.setdefault(ino, len(fids))
+    expected = clist(ctuple(cstr(n), cnat(fids[ino])) for n, (ino, _) in sorted(final.items()))
+    hash0 = {ino: h for _, (ino, h) in init.items()}
+    changed = sorted(n for n, (ino, h) in final.items() if ino in hash0 and hash0[ino] != h)
+    live = clist(cstr(os.path.relpath(o.mroot / "dists", base)) for o in o_list)
+    term = ctuple(live, ns0, cnat(len(ids)), clist(ops), expected, clist(cstr(n) for n in changed))
+    return term, {"ops": len(ops), "names0": len(init), "names1": len(final), "changed": len(changed),
+                  "shared0": len(init) - len(ids)}
 
 
 def abstract_trace(o, snaps, base):
@@ -83,6 +152,8 @@ def record_run(scn, base, oracles, files, plan=None, gate=None, crash_at=None):
     mirror_root = str(base / "mirror")
 
     inplace = []
+    ievents = []
+    sbase = str(base) + "/"
 
     def shared_with_live(path):
         """the live dists path (if any) that is the same inode as `path`"""
@@ -104,6 +175,8 @@ def record_run(scn, base, oracles, files, plan=None, gate=None, crash_at=None):
         return None
 
     def hook(kind, paths, idx):
+        if kind in IKINDS and all(p.startswith(sbase) and "/" in p[len(sbase):] for p in paths):
+            ievents.append((kind, [os.path.relpath(p, base) for p in paths]))
         if kind in ("open-w", "truncate") and paths[0].startswith(str(base)):
             # a file the clients can reach, about to be rewritten through one of its other names
             live = shared_with_live(paths[0])
@@ -127,10 +200,12 @@ def record_run(scn, base, oracles, files, plan=None, gate=None, crash_at=None):
         if crash_at is not None and len(snaps) - 1 == crash_at:
             os._exit(137)
     faults = R.realise_plan(plan or {}, files)
+    init = itree(base)
     with R.Instrument() as inst:
         res = P.run_tool(scn, base, faults=faults, on_event=hook, gate=gate, upstream_files=files)
     res.obs = inst.obs
     res.inplace = inplace
+    res.inode = (init, ievents, itree(base))
     return res, snaps
 
 
@@ -174,7 +249,7 @@ def gen_case(rng):
                  "uncompressed_then_compressed": rng.random() < 0.2}
 
 
-def run_case(rep, scn, case, sb, tag, rows):
+def run_case(rep, scn, case, sb, tag, rows, irows=None):
     rng = random.Random(case["seed"])
     base = sb / tag
     found = False
@@ -208,6 +283,12 @@ def run_case(rep, scn, case, sb, tag, rows):
     res, snaps = record_run(scn2, base, oracles, files2, plan=plan, gate=make_gate(case["seed"]) if case["gate"] else None)
     jc = {"scenario": {"repos": scn.repos, "nthreads": scn.nthreads}, "case": case, "plan": plan}
     rep.count("inode_oracle.runs")
+    if irows is not None:
+        term, meta = inode_row(oracles, base, *res.inode)
+        irows.append((jc, term, meta))
+        rep.count("inode.ops", meta["ops"])
+        rep.count("inode.names_sharing_an_inode_at_start", meta["shared0"])
+        rep.count("inode.changed_initial_inodes", meta["changed"])
     for msg in res.inplace[:2]:
         found = True
         rep.violation(msg, {"kind": "oracle", "tie": "snapshots", "case": jc}, tags={"oracle": "inplace_inode"})
@@ -257,10 +338,11 @@ def run(rep: C.Report):
     sb = P.sandbox("vsb_c03_")
     found = False
     rows = []
+    irows = []
     try:
         for i in range(n):
             scn, case = gen_case(rng)
-            found |= run_case(rep, scn, case, sb, f"r{i}", rows)
+            found |= run_case(rep, scn, case, sb, f"r{i}", rows, irows)
             shutil.rmtree(sb / f"r{i}", ignore_errors=True)
     finally:
         shutil.rmtree(sb, ignore_errors=True)
@@ -268,7 +350,39 @@ def run(rep: C.Report):
     mism, errors = C.run_mismatch_shards(rep.prop, "trace", header, "m_trace", "Bool.eqb", [(a, b) for _, a, b in rows], shard=20)
     C.tie_verdict(rep, "trace", mism, errors, [c for c, _, _ in rows], found, header=header, fn="m_trace",
                   coq_inputs=[a for _, a, _ in rows])
+    found |= inode_tie(rep, irows, found)
     C.proof_verdict(rep, found)
+
+
+def inode_tie(rep, irows, found):
+    """every recorded run replayed on Inode.v: the discipline of published_content_immutable holds on the real
+    trace, the model ends with the names and hard-link classes of the real tree, and every initial inode whose
+    bytes changed was written in the model"""
+    header = INODE_HEADER + INODE_DEFS
+    mism, errors = C.run_mismatch_shards(rep.prop, "inode", header, "m_inode", "Bool.eqb",
+                                         [(t, "true") for _, t, _ in irows], shard=4)
+    rep.ties["inode"] = {"cases": len(irows), "mismatches": len(mism), "errors": len(errors)}
+    hit = False
+    if errors:
+        rep.violation(f"correspondence inode: model evaluation failed: {errors[0][:300]}",
+                      {"kind": "correspondence-error", "tie": "inode", "errors": errors[:3]},
+                      tags={"kind": "tie-error", "tie": "inode"}, no_failing_input=True)
+    for i in mism[:3]:
+        jc, term, meta = irows[i]
+        out = C.coq_show(header, f"m_inode_show {term}", name=f"show_{rep.prop}_inode")
+        m = re.search(r"=\s*\((true|false),\s*(None|Some (\d+)(?:%nat)?),\s*(true|false),\s*(true|false)\)", out)
+        if m and m.group(3) is not None:
+            hit = True
+            rep.violation(f"operation {m.group(3)} of the recorded run writes a file in place while one of its "
+                          f"names is published (Inode.disciplined fails; hypothesis of published_content_immutable)",
+                          {"kind": "oracle", "tie": "inode", "case": jc, "op_index": int(m.group(3)), "model": out[-300:]},
+                          tags={"oracle": "inode_discipline"})
+        elif not found and not hit:
+            rep.violation(f"correspondence inode: the model of unlink/link/rename/open does not end with the real "
+                          f"tree's names and hard-link classes (wf, first_bad, same_partition, writes_seen) = {out[-200:]}",
+                          {"kind": "correspondence", "tie": "inode", "case": jc, "model_output": out[-600:], "meta": meta},
+                          tags={"kind": "tie", "tie": "inode"}, no_failing_input=True)
+    return hit
 
 
 def replay(rep: C.Report, path: str):
